@@ -80,7 +80,10 @@ _p("C10", modules=["ports", "main_run", "quic_output"], level="proof",
    level_text="Each sentence of the property is a postcondition proved for all ports and ALL port maps (an uninterpreted map): both output builders compute "
               "server_port' = keep ? p : (p in map ? map[p] : 8080) and leave the client port alone; get_port_map turns 'a:b' items into {a: b}; bare -m stores "
               "['443:8080'] and clears keep_original_ports; the real add_argument/set_defaults calls give -m the SUPPRESS default and keep_original_ports=True; "
-              "the side on a server port becomes the server (TLS and QUIC); main.handle_packet creates a TLS session iff sport or dport is a server port.",
+              "the side on a server port becomes the server (TLS and QUIC); main.handle_packet creates a TLS session iff sport or dport is a server port; run() hands the -m pairs to both "
+              "handlers exactly as parsed (frame obligation: run has no statement that changes the map; concrete two-pair map incl. a port that is not a -p port); every datagram the QUIC "
+              "builder emits - in each of its eight IPv4/IPv6 x direction x flush-site branches - carries the computed server port on the server's side and the client port on the client's "
+              "(quic_out.build: per-iteration transition relation and final flush).",
    level_note="argparse's own behaviour (SUPPRESS, set_defaults, nargs) is an assumed contract; only the calls made by arg_parser_init are checked; strings are piece lists "
               "(decimal renderings of non-negative integers and literals); the threading of keep_original_ports/portmap from run() to the builders is a call-site "
               "obligation checked for main.handle_packet here and for the QUIC path in ports.quic_threading",
@@ -131,7 +134,9 @@ _p("C07", modules=["tcp_output", "quic_output", "framing", "framing_unbounded", 
               "ports, the client port unchanged (tcp_out.* orientation clauses, all 22 scapy constructions); data frame j of a record carries the timestamp of the j-th packet "
               "that carried the record, ACKs the same; the handshake carries the time of the first exported record's first packet; QUIC datagrams carry the "
               "timestamp and direction of the input datagram whose frames they hold; roles are taken from the first packet as documented (ports.roles); a record's "
-              "metadata is exactly the buffered segments overlapping its byte range, in stream order (framing.unbounded: proved for any number of segments and records; framing.extract repeats it within a bound with list.sort executed).",
+              "metadata is exactly the buffered segments overlapping its byte range, in stream order (framing.unbounded: proved for any number of segments and records; framing.extract repeats it within a bound with list.sort executed); "
+              "the wrapper built for every captured frame keeps the decoder's endpoints and the reader's timestamp ITSELF (packet.init, run.packet_branches); the pcapng reader gives every packet block, "
+              "wherever it sits among any number of other blocks, the time if_tsoffset + ticks / divisor of the resolution fixed at the first interface description (container.unbounded.iter).",
    level_note="microsecond preservation = the float timestamp passing unchanged from dpkt's reader to dpkt's writer (trusted); metadata exactness is proved without bound per extract call (framing.unbounded)",
    design_ref="DESIGN.md 4 C07",
    explanation="Orientation and timestamp clauses are postconditions proved per builder call for symbolic sizes; the metadata clause is an unbounded loop contract; timestamp resolution is a "
@@ -251,12 +256,15 @@ _p("C03", modules=["robustness", "demux", "ports", "quic_output", "main_run", "q
 _p("C01", modules=["record_protection", "framing", "framing_unbounded", "framing_history", "keys", "cipher_suites", "tcp_output", "robustness", "metadata", "compose_tls", "ports", "packet_c", "demux"], level="other",
    technique="contract-based deductive verification of every link of the TLS pipeline (per-function contracts; primitives uninterpreted); composition on paper",
    level_text="The pipeline is decomposed into links and each link's obligation is discharged on the real code: framing (records released by one extract call = frame(buffered stream), UNBOUNDED loop contract; capture-order history BOUNDED); ServerHello parsing "
-              "(random, suite, compression, extension map incl. zero-length last extensions, version rule; bounded to 2 extensions); suite resolution (C14, exhaustive); key "
+              "(random, suite, compression, version rule, and the extension map for ANY number of extensions: hello.server_hello_unbounded, loop contract with the map as the ghost fold 'type -> last "
+              "extension of that type'; hello.server_hello repeats it with real dicts for <= 2 extensions incl. zero-length last ones); the wrapper every segment passes through keeps exactly "
+              "the decoder's payload, ports and sequence number (packet.init); a session sees secrets appended to the run's key log after it was created; suite resolution (C14, exhaustive); key "
               "schedules and installed keys (C15); handshake state machine (an encrypted handshake record advances exactly its sender's cipher state, iff that sender sent "
               "ChangeCipherSpec); dispatch (finite: version x cipher class -> RFC record-protection function, total); record protection - for every decrypt_* function the "
               "library primitive receives exactly the RFC's key (by direction), nonce, additional data and ciphertext, the result is the content with explicit IV, padding "
               "and MAC removed, only the own direction's state advances and an authentication failure leaves the state unchanged; TLS 1.3 inner plaintext (content || type || "
-              "zeros -> content exported exactly for type 23); output (C06/C07).",
+              "zeros -> content exported exactly for type 23); the TLS 1.3 handshake-message walk (any number of messages of any type: keys switched once per Finished, UNBOUNDED loop contract); "
+              "isolation (no mutable state shared between connections or hanging on classes / modules); output (C06/C07).",
    level_note="level 'other': the induction over the record sequence of a direction - the receiver's cipher state follows the sender's and every application record is exported exactly, "
               "in order, once - IS discharged for every cipher class (compose.application_phase: TLS 1.2 / 1.3 AEADs; compose.application_phase_cbc_rc4: explicit-IV CBC, chained-IV CBC of "
               "SSL 3.0 / TLS 1.0 with the residue invariant, RC4 with the keystream-position invariant): loop contracts over any number of records with handle_tls_record, the handlers, "
